@@ -31,14 +31,14 @@
     ([EVisit]) or orphaned ([EOrphan]); touching an [AMissing] node is the Go panic
     "left/right hash ... ErrNodeNotExist".  The cache effects are replayed from that log.
 
-    Aliased root hashes.  DelLeafCountKV (prune bookkeeping) loads every root recorded
-    for a block height with a [hash] slice that points into the LevelDB iterator's key
-    buffer; the node object keeps that slice, and when it is put into the ARC cache
-    (height > 2) its [hash] field later reads as whatever the iterator wrote last: the
-    smallest (in byte order) root key of that height.  [s_alias] records, for such cache
-    entries, the hash the object now carries; it is what an update with no writes
-    returns as "the root" and what removeOrphan evicts.  The byte order of SHA-256
-    values is not something a symbolic hash has: it is an explicit oracle [ord].
+    Root objects own their hash.  DelLeafCountKV (prune bookkeeping) loads every root
+    recorded for a block height; since chain33 7d7bddb it copies the hash out of the
+    LevelDB iterator's key buffer before Tree.Load, so the node object that GetNode puts
+    into the ARC cache (height > 2) keeps saying its own hash when the iterator moves on
+    (before that fix the cached object read as the last key visited, and a Set with no
+    writes returned that other root: former known finding 3).  A cached node object is
+    therefore fully described by its record, and the tree of an update with no writes
+    still has the loaded root object as its root, whose hash is the parent root.
 
     Not modelled: ticket nodes (tkCloseCache stays empty: no key with prefix
     "mavl-ticket-" occurs), the prune bookkeeping keys and the pruning goroutine
@@ -346,22 +346,9 @@ Definition pending := list (root * option (atree * Z)).
 
 Record store := mk_store {
   s_db : kvmap; s_lru : kvmap; s_mem : kvmap; s_pend : pending;
-  s_idx : list (Z * hash); s_maxh : Z; s_alias : list (nk * hash) }.
+  s_idx : list (Z * hash); s_maxh : Z }.
 
-Definition empty_store : store := mk_store [] [] [] [] [] 0 [].
-
-Fixpoint al_get (a : list (nk * hash)) (K : nk) : option hash :=
-  match a with
-  | [] => None
-  | (K', g) :: tl => if nk_eqb K K' then Some g else al_get tl K
-  end.
-
-(** aliases live and die with their cache entry *)
-Definition al_clean (lru : kvmap) (a : list (nk * hash)) : list (nk * hash) :=
-  filter (fun b => m_has lru (fst b)) a.
-
-Definition al_drop (ks : list nk) (a : list (nk * hash)) : list (nk * hash) :=
-  filter (fun b => negb (existsb (nk_eqb (fst b)) ks)) a.
+Definition empty_store : store := mk_store [] [] [] [] [] 0.
 
 Fixpoint p_get (p : pending) (r : root) : option (option (atree * Z)) :=
   match p with
@@ -526,70 +513,26 @@ Fixpoint del_leaf_count (lk : nk -> option nrec) (ks : list bytes) (roots : list
       end
   end.
 
-(** cache keys written by Node.save *)
-Fixpoint asave_keys (t : atree) : list nk :=
-  match t with
-  | ANode (AHashed K) _ h _ l r => (if h >? 2 then [K] else []) ++ asave_keys l ++ asave_keys r
-  | _ => []
-  end.
-
-(** the root of smallest byte order *)
-Fixpoint min_root (ord : hash -> N) (l : list hash) : option hash :=
-  match l with
-  | [] => None
-  | h :: tl => match min_root ord tl with
-               | None => Some h
-               | Some m => if (ord h <? ord m)%N then Some h else Some m
-               end
-  end.
-
-(** Tree.Save of a hashed tree built at block height [bh] whose root object says its
-    hash is [rh]; [None] = panic *)
-Definition do_save (ord : hash -> N) (c : cfg) (s : store) (t : atree) (bh : Z) (rh : hash) : option store :=
+(** Tree.Save of a hashed tree built at block height [bh]; [None] = panic *)
+Definition do_save (c : cfg) (s : store) (t : atree) (bh : Z) : option store :=
   let pre :=
     if c_prune c then
-      if bh >? s_maxh s then Some (s_lru s, s_mem s, bh, s_alias s)
+      if bh >? s_maxh s then Some (s_lru s, s_mem s, bh)
       else
         let roots := map snd (filter (fun b => fst b =? bh) (s_idx s)) in
         match del_leaf_count (lookup c s) (leaf_keys_at (s_db s) bh) roots [] with
         | None => None
         | Some lg =>
             let '(lru1, mem1, _) := run_log c (s_db s) lg (s_lru s, s_mem s, []) in
-            (* roots read from the database and cached: their hash slice aliases the iterator buffer *)
-            let fresh := filter (fun h => let K := (None, h) in
-                                   negb (m_has (s_lru s) K) &&
-                                   negb (c_memtree c && m_has (s_mem s) K) &&
-                                   match m_get (s_db s) K with
-                                   | Some rc => nrec_height rc >? 2
-                                   | None => false
-                                   end) roots in
-            let al := match min_root ord roots with
-                      | Some m => map (fun h => ((None, h), m)) fresh ++ s_alias s
-                      | None => s_alias s
-                      end in
-            Some (lru1, mem1, s_maxh s, al)
+            Some (lru1, mem1, s_maxh s)
         end
-    else Some (s_lru s, s_mem s, s_maxh s, s_alias s) in
+    else Some (s_lru s, s_mem s, s_maxh s) in
   match pre with
   | None => None
-  | Some (lru1, mem1, maxh, al) =>
+  | Some (lru1, mem1, maxh) =>
       let '(db2, lru2) := asave (c_mvcc c) t (s_db s, lru1) in
       Some (mk_store db2 lru2 mem1 (s_pend s)
-                     (if c_prune c then (bh, rh) :: s_idx s else s_idx s) maxh
-                     (al_drop (asave_keys t) al))
-  end.
-
-(** what the loaded root object says its hash is *)
-Definition root_says (s : store) (r : root) : option hash :=
-  match r with
-  | None => None
-  | Some h => al_get (s_alias s) (None, h)
-  end.
-
-Definition fix_orphan (K G : nk) (e : ev) : ev :=
-  match e with
-  | EOrphan K' => if nk_eqb K' K then EOrphan G else e
-  | _ => e
+                     (if c_prune c then (bh, ahash t) :: s_idx s else s_idx s) maxh)
   end.
 
 (** NewTree; SetBlockHeight; Load; Set...; (Hash): the hashed tree, the caches
@@ -602,10 +545,6 @@ Definition prepare (c : cfg) (s : store) (r : root) (bh : Z) (kvs : list (bytes 
       match aset_all o kvs lg0 with
       | None => Panic
       | Some (o', lg) =>
-          let lg := match r, root_says s r with
-                    | Some h, Some g => map (fix_orphan (None, h) (None, g)) lg
-                    | _, _ => lg
-                    end in
           let '(lru1, mem1, obs) := run_log c (s_db s) lg (s_lru s, s_mem s, []) in
           let o'' := match o' with
                      | None => None
@@ -619,27 +558,23 @@ Definition aroot (o : option atree) : root :=
   match o with None => None | Some t => Some (ahash t) end.
 
 Definition with_caches (s : store) (lru mem : kvmap) : store :=
-  mk_store (s_db s) lru mem (s_pend s) (s_idx s) (s_maxh s) (al_clean lru (s_alias s)).
+  mk_store (s_db s) lru mem (s_pend s) (s_idx s) (s_maxh s).
 
 Definition with_pend (s : store) (p : pending) : store :=
-  mk_store (s_db s) (s_lru s) (s_mem s) p (s_idx s) (s_maxh s) (s_alias s).
+  mk_store (s_db s) (s_lru s) (s_mem s) p (s_idx s) (s_maxh s).
 
 (** Store.Set = SetKVPair *)
-Definition st_set (ord : hash -> N) (c : cfg) (s : store) (r : root) (bh : Z) (kvs : list (bytes * bytes))
+Definition st_set (c : cfg) (s : store) (r : root) (bh : Z) (kvs : list (bytes * bytes))
   : res (root * store) :=
   match prepare c s r bh kvs with
   | Ok (o, lru1, mem1, _) =>
       match o with
       | None => Ok (None, with_caches s lru1 mem1)
       | Some t =>
-          (* with no writes the tree's root is still the loaded object *)
-          let rh := match kvs, root_says s r with
-                    | [], Some g => g
-                    | _, _ => ahash t
-                    end in
-          match do_save ord c (with_caches s lru1 mem1) t bh rh with
+          (* with no writes the tree's root is still the loaded object: [ahash t] is its hash *)
+          match do_save c (with_caches s lru1 mem1) t bh with
           | None => Panic
-          | Some s' => Ok (Some rh, s')
+          | Some s' => Ok (Some (ahash t), s')
           end
       end
   | ErrNotExist => ErrNotExist
@@ -670,12 +605,12 @@ Definition st_memset (c : cfg) (s : store) (r : root) (bh : Z) (kvs : list (byte
   end.
 
 (** Store.Commit *)
-Definition st_commit (ord : hash -> N) (c : cfg) (s : store) (r : root) : res (root * store) :=
+Definition st_commit (c : cfg) (s : store) (r : root) : res (root * store) :=
   match p_get (s_pend s) r with
   | None => ErrHashNotFound
   | Some None => Ok (r, with_pend s (p_del (s_pend s) r))
   | Some (Some (t, bh)) =>
-      match do_save ord c s t bh (ahash t) with
+      match do_save c s t bh with
       | None => Panic
       | Some s' => Ok (r, with_pend s' (p_del (s_pend s) r))
       end
